@@ -314,7 +314,7 @@ func VerifRepr(v Value) string {
 	case unicodeString:
 		return "unicode"
 	case *importedString:
-		if x.scanned {
+		if x.scanned.Load() {
 			if x.u != nil {
 				return "imported-unicode"
 			}
@@ -371,7 +371,7 @@ func VerifStringWellFormed(v Value) (bool, string) {
 		}
 		return false, "unicodeString with ASCII-only content"
 	case *importedString:
-		if x.scanned {
+		if x.scanned.Load() {
 			u := unistring.Scan(x.s)
 			if (u == nil) != (x.u == nil) || len(u) != len(x.u) {
 				return false, "importedString scan cache mismatch"
